@@ -83,10 +83,21 @@ def class_programs(seed, n):
                                                                             Expr(If(Bin(">", V("i"), I(7)), Block([Break()]))),
                                                                             Expr(Asg(V("acc"), V("i"), "+="))])),
                                      Loop(Block([Expr(Asg(V("acc"), I(1), "-=")), Expr(If(Bin("<", V("acc"), I(a)), Block([Break()])))])),
-                                     For("k", Range(I(0), I(3)), Block([Expr(Asg(V("acc"), Bin("*", V("k"), I(2)), "+="))]))], V("acc")), "int", ["int"]),
+                                     For("k", Range(I(0), I(3)), Block([Expr(Asg(V("acc"), Bin("+", V("k"), Bin("*", I(2), I(2))), "+="))]))], V("acc")), "int", ["int"]),
+            # break / continue that are only reachable through the value position of a nested block (else-if chains,
+            # an if / match / try as the last expression of a block): the loop-control guard has to look there, too
+            "scan": Fn(["n"], Block([Let("s", I(0)), Let("i", I(0)),
+                                     While(Bin("<", V("i"), I(10)), Block([
+                                         Expr(Asg(V("i"), I(1), "+=")),
+                                         Expr(If(Bin("==", V("i"), I(2)), Block([Expr(Asg(V("s"), I(100), "+="))]), Block([], If(Bin(">", V("i"), Bin("+", V("n"), I(4))), Block([Break()]))))),
+                                         Expr(If(Bin(">", V("i"), I(0)), Block([], If(Bin("==", Bin("%", V("i"), I(3)), I(0)), Block([Continue()]))))),
+                                         Expr(Block([], If(Bin("==", V("i"), I(9)), Block([Break()])))),
+                                         Expr(If(B(True), Block([], Match(V("i"), [([I(5)], Block([Continue()]))], Block([]))))),
+                                         Expr(Block([], Try(Block([Expr(If(Bin("==", V("i"), I(7)), Block([Continue()])))]), "e", Block([])))),
+                                         Expr(Asg(V("s"), V("i"), "+=")), Print(S("i"), V("i"))]))], V("s")), "int", ["int"]),
             "pick": Fn(["t"], Block([], If(V("t"), Block([], F(3, 1)), Block([], Bin("*", F(2, 0), F(5, 1))))), "float", ["bool"]),
             "forever": Fn(["n"], Block([Let("i", I(0)), Loop(Block([Expr(If(Bin(">", V("i"), V("n")), Block([Ret(V("i"))]))), Expr(Asg(V("i"), I(1), "+="))]))]), "int", ["int"]),
-            "main": Fn([], Block([Let("r", Call("calc", I(a), I(b))), Print(V("r"), Call("walk", I(b)), Call("pick", B(a % 2 == 0)), Call("forever", I(c))),
+            "main": Fn([], Block([Let("r", Call("calc", I(a), I(b))), Print(V("r"), Call("walk", I(b)), Call("pick", B(a % 2 == 0)), Call("forever", I(c)), Call("scan", I(c % 4))),
                                   Let("l", List(I(a), I(b), I(c))), Print(Bin("+", Idx(V("l"), I(0)), Idx(V("l"), I(2))), Bin(cmpop, Idx(V("l"), I(1)), I(5))),
                                   Let("o", Obj(p=I(a), q=F(b, 0))), Print(Bin("+", Mem(V("o"), "p"), I(1)), Bin("*", Mem(V("o"), "q"), F(1, 1)), V("g1"), V("g2"))])),
         }
@@ -109,6 +120,8 @@ def class_programs(seed, n):
                 return Bin("**", rnd.choice([I(2), I(3), V("y")]), I(rnd.randrange(0, 3)))
             if op == "<<":
                 return Bin("<<", tree(d - 1, "int"), I(rnd.randrange(0, 3)))
+            if op in ("&", "|", "^"):      # (bitwise operators on negative numbers are outside HmsSem's integers)
+                return Bin(op, rnd.choice([I(rnd.randrange(0, 9)), V("x")]), rnd.choice([I(rnd.randrange(0, 9)), V("y")]))
             return Bin(op, tree(d - 1, "int"), tree(d - 1, "int"))
         op = rnd.choice(["<", ">", "<=", ">=", "==", "!=", "&&", "||", "not"])
         if op == "not":
